@@ -36,6 +36,7 @@ def run(repo: Repo, rep: Report, tier: str) -> None:
     rep.rule("complementary", "for every (proposal, acceptor setting, mode): same acceptance; requestor SCU <=> acceptor SCP and requestor SCP <=> acceptor SCU")
     rep.rule("normalisation", "a proposed role of None is treated as False identically by the requestor, the role sub-item codec and the acceptor's reply mask")
     rep.rule("requestor-view", "negotiate_as_requestor: one context per requested id; abstract syntax from the request; transfer syntax and result from the reply with that id; missing -> rejected")
+    check_user_information_kept(repo, rep, "requestor-view")
     rep.rule("iteration-independent", "no loop-carried local state in negotiate_as_requestor's loop")
     rep.rule("wire", "role-selection and presentation-context items have the PS3.7/PS3.8 layout (SCU role before SCP role, id and result positions)")
     pres = repo.mod("presentation")
@@ -302,3 +303,50 @@ def check_unique_ids(repo: Repo, rep: Report) -> None:
     rep.check(not leak, "unique-ids", fq, lp, "a path through one iteration of the numbering loop leaves the context with the ID it came with (None, or the ID it had in an earlier association): re-proposed contexts then share an ID with a freshly numbered one, and the requestor's dict of proposed contexts silently drops one of them", mod=ae, node=lp)
     # the numbering happens on the association's own copies, after the copy
     rep.floor("context-ID writes in associate()", len(writes), 1)
+
+
+def check_user_information_kept(repo, rep, rule: str) -> None:
+    """The A-ASSOCIATE primitive's user_information setter is on both paths: it validates what the local user hands
+    in, and it receives what was decoded from the peer's A-ASSOCIATE-RQ / -AC. Every item of a supported class must
+    come out as it went in - whatever its values. An SCP/SCU role reply of (False, False) is the acceptor saying
+    'neither role': if the setter drops it the requestor falls back to the default roles and sends requests on a
+    context it holds no role on. Evaluated (sa/minipy.py) with one item of every supported class and role items
+    of all four value pairs."""
+    from ..minipy import Interp, Obj, Raised, Unsupported
+
+    pp = repo.mod("pdu_primitives")
+    ci = pp.classes.get("A_ASSOCIATE")
+    fn = ci.setters.get("user_information") if ci is not None else None
+    if fn is None:
+        rep.defer("pdu_primitives.A_ASSOCIATE.user_information setter vanished")
+        return
+    fq = "pdu_primitives.A_ASSOCIATE.user_information (setter)"
+    names = sorted({c.value for c in ast.walk(fn) if isinstance(c, ast.Constant) and isinstance(c.value, str) and c.value in pp.classes})
+    if len(names) < 5:
+        rep.defer(f"{fq}: the list of supported item classes was not found")
+        return
+
+    def mk(cls, **attrs):
+        a = {"__class__": Obj("type", {"__name__": cls}), "sop_class_uid": "1.2.3", "scu_role": None, "scp_role": None}
+        a.update(attrs)
+        return Obj(cls, a)
+
+    items = [mk(nm) for nm in names if nm != "SCP_SCU_RoleSelectionNegotiation"]
+    for scu in (True, False):
+        for scp in (True, False):
+            items.append(mk("SCP_SCU_RoleSelectionNegotiation", scu_role=scu, scp_role=scp, sop_class_uid=f"1.2.{int(scu)}.{int(scp)}"))
+    me = Obj("A_ASSOCIATE", {"_user_information": []})
+    params = [a.arg for a in fn.args.args]
+    g = {nm: nm for nm in pp.classes}
+    try:
+        Interp(g).call_function(fn, {params[0]: me, params[1]: list(items)})
+    except Unsupported as exc:
+        rep.defer(f"{fq}: not evaluable with stand-ins ({exc})")
+        return
+    except Raised as r:
+        rep.fail(rule, fq, f"raises {r.kind} on a list of supported items", "the setter rejects items of supported classes", mod=pp, node=fn)
+        return
+    got = me.attrs.get("_user_information")
+    kept = isinstance(got, list) and len(got) == len(items) and all(a is b for a, b in zip(got, items))
+    lost = [f"{i.cls}({i.attrs.get('scu_role')}, {i.attrs.get('scp_role')})" if i.cls.startswith("SCP_SCU") else i.cls for i in items if not (isinstance(got, list) and any(i is x for x in got))]
+    rep.check(kept, rule, fq, f"{len(items)} items of {len(names)} supported classes in -> {len(got) if isinstance(got, list) else got!r} out", f"the setter drops or reorders supported items: lost {lost} - it also receives what was decoded from the peer's PDU, so an acceptor's SCP/SCU role reply of (False, False) ('neither role accepted') never reaches the requestor's role negotiation, which falls back to the default roles and sends requests on a context it holds no role on", mod=pp, node=fn)
